@@ -2,6 +2,7 @@ import PnaVerif.Model.Bytes
 import PnaVerif.Model.Crc32
 import PnaVerif.Model.Chunk
 import PnaVerif.Model.Canon
+import PnaVerif.Model.Toy
 /-
   Line-protocol driver: one request per line on stdin, one canonical answer per line on stdout.
   Imports model files only (no Mathlib) so that it links as a native executable.
@@ -52,6 +53,16 @@ def withHex (h : String) (f : Bytes → String) : String :=
   match ofHex h with
   | some b => f b
   | none => "bad-op"
+
+/-- list of byte strings on the wire: `h1,h2,…` (each `-` if empty), or `.` for the empty list -/
+def parseBytesList (s : String) : Option (List Bytes) :=
+  if s == "." then some [] else (s.splitOn ",").mapM ofHex
+
+def parseNatList (s : String) : Option (List Nat) :=
+  if s == "." then some [] else (s.splitOn ",").mapM String.toNat?
+
+def bytesListS (l : List Bytes) : String :=
+  if l.isEmpty then "." else ",".intercalate (l.map toHexW)
 
 def handle (line : String) : String :=
   match line.trimAscii.toString.splitOn " " with
@@ -115,6 +126,37 @@ def handle (line : String) : String :=
     match parseChunks cs with
     | some cs => outcomeS (fun e => chunkListS (serEntry e)) ((parseEntry cs).bind fun e => parseEntry (serEntry e))
     | none => "bad-op"
+  | ["flatw", n, ws] =>
+    match n.toNat?, parseBytesList ws with
+    | some n, some ws => "ok " ++ bytesListS (flattenWriter n ws)
+    | _, _ => "bad-op"
+  | ["flatr", sl, sched] =>
+    match parseBytesList sl, parseNatList sched with
+    | some sl, some sched => "ok " ++ bytesListS (FlatR.run ⟨sl⟩ sched)
+    | _, _ => "bad-op"
+  | ["cbcw", k, iv, ws] =>
+    match ofHex k, ofHex iv, parseBytesList ws with
+    | some k, some iv, some ws => "ok " ++ bytesListS (cbcWriterRun Toy.perm k iv ws)
+    | _, _, _ => "bad-op"
+  | ["cbcr", k, iv, ct, sched] =>
+    match ofHex k, ofHex iv, ofHex ct, parseNatList sched with
+    | some k, some iv, some ct, some sched =>
+      match CbcR.new iv ct with
+      | .error e => "ok . " ++ errS e
+      | .panic s => "panic " ++ s
+      | .ok r =>
+        let (outs, e) := CbcR.run Toy.perm k r sched
+        "ok " ++ bytesListS outs ++ (match e with | none => "" | some e => " " ++ errS e)
+    | _, _, _, _ => "bad-op"
+  | ["ctrw", k, iv, ws] =>
+    match ofHex k, ofHex iv, parseBytesList ws with
+    | some k, some iv, some ws => "ok " ++ bytesListS (ctrWriterRun Toy.perm k iv 0 ws)
+    | _, _, _ => "bad-op"
+  | ["ctrr", k, iv, ct, cuts, sched] =>
+    match ofHex k, ofHex iv, ofHex ct, parseNatList cuts, parseNatList sched with
+    | some k, some iv, some ct, some cuts, some sched =>
+      "ok " ++ bytesListS (CtrR.run Toy.perm k iv ⟨ct, 0⟩ sched cuts)
+    | _, _, _, _, _ => "bad-op"
   | ["archive.read.stream", h] =>
     match ofHex h with
     | some b => Canon.readS (readArchiveStream b)
